@@ -26,8 +26,8 @@ for n in range(1, 5):
         toks = list(body) + [3]
         if any(toks[i] == 3 and toks[i + 1] == 3 for i in range(len(toks) - 1)) and n > 1:
             continue
-        if toks[0] == 1:
-            continue  # an announcement cannot precede the first leaf
+        if 1 in toks and (0 not in toks or toks.index(1) < toks.index(0)):
+            continue  # an announcement cannot precede the first leaf (the harness assumes it away: the obligation would be vacuous)
         ALL.append(toks)
 seen = set()
 for toks in QUICK_SHAPES + ALL:
